@@ -154,25 +154,25 @@ def run(ctx):
             ooc = s.rv.ops[names.index("out_of_chars")].const_value()
             ctx.ob("R1", "refusal-kind:%s" % short, ooc is bool(spec.get("size", False)), "out_of_chars=%s in %s; oracle %s (only the size limiter reports a character overflow, -x depends on it)" % (ooc, short, bool(spec.get("size", False))), fn=f, where=prim.site(f, b, s), how="constant field")
             gs = prim.dominating_guards(f, b)
-            cmpg = [gd for gd in gs if gd["pred"].strip().k == "bin" and gd["pred"].strip().a in ("Lt", "Le", "Gt", "Ge")]
-            # R2: the comparison
+            atoms = [at for at in prim.norm_guards(gs) if at["rel"] in ("lt", "le", "gt", "ge")]
+            # R2: the comparison, in normal form: the refusal holds exactly when NOT (lhs cmp bound)
             ok2 = False
             desc = prim.guards_fmt(gs)
-            if len(cmpg) == 1:
-                gd = cmpg[0]
-                pr = gd["pred"].strip()
-                lhs, rhs = pr.kids[0].strip(), pr.kids[1].strip()
-                def is_field(o, name):
-                    return o.k == "field" and o.a == name
-                def fields_in(o):
-                    return [x.a for x in o.walk() if x.k == "field"]
+
+            def is_field(o, name):
+                return o.k == "field" and o.a == name
+            want_rel = {"Lt": "ge", "Le": "gt"}[spec["cmp"]]          # negation of the acceptance test
+            if len(atoms) == 1:
+                at = atoms[0]
+                lhs, rhs, rel = at["a"].strip(), at["b"].strip(), at["rel"]
+                if is_field(lhs, spec["bound"]) or any(is_field(x, spec["bound"]) for x in [lhs]):
+                    lhs, rhs, rel = rhs, lhs, prim._SWAP[rel]
                 if spec.get("size"):
-                    lhs_ok = spec["counter"] in fields_in(lhs) and lhs.k in ("field",) and False
                     # cur + cost <= max : lhs is (AddWithOverflow(cur, cost)).0 or Add
                     core = lhs
                     if core.k == "field" and core.kids and core.kids[0].strip().k == "bin":
                         core = core.kids[0].strip()
-                    if core.k == "bin" and core.a in ("Add", "AddWithOverflow") and pr.a == "Le" and gd["bool"] is False and is_field(rhs, spec["bound"]):
+                    if core.k == "bin" and core.a in ("Add", "AddWithOverflow") and rel == want_rel and is_field(rhs, spec["bound"]):
                         parts = [k.strip() for k in core.kids]
                         cur = [p for p in parts if is_field(p, spec["counter"])]
                         cost = [p for p in parts if not is_field(p, spec["counter"])]
@@ -191,22 +191,20 @@ def run(ctx):
                             ca = cost[0].kids[0]
                             ctx.ob("R2", "size-cost-of-this-arg", any(x.k == "arg" and x.a["name"] == "arg" for x in ca.walk()), "the cost is computed from %s" % ca.fmt(), fn=f, how="provenance slice")
                 else:
-                    if is_field(lhs, spec["counter"]) and is_field(rhs, spec["bound"]) and pr.a == spec["cmp"] and gd["bool"] is False:
+                    if is_field(lhs, spec["counter"]) and is_field(rhs, spec["bound"]) and rel == want_rel:
                         ok2 = True
-                    # mirrored forms
-                    mirror = {"Lt": "Gt", "Le": "Ge", "Gt": "Lt", "Ge": "Le"}
-                    if is_field(rhs, spec["counter"]) and is_field(lhs, spec["bound"]) and pr.a == mirror[spec["cmp"]] and gd["bool"] is False:
-                        ok2 = True
-                guard_bb = gd["bb"]
+                guard_bb = at["gd"]["bb"]
             ctx.ob("R2", "limit-comparison:%s" % short, ok2,
-                   "the refusal of %s must sit on the false edge of `%s %s %s` (initial value %s): this pair keeps the invariant `within limit` and refuses only when one more would exceed it; found guards: %s" % (
+                   "the refusal of %s must be taken exactly when `%s %s %s` is false (initial value %s): this pair keeps the invariant `within limit` and refuses only when one more would exceed it; found guards: %s" % (
                        short, ("current_size + cost" if spec.get("size") else spec["counter"]), {"Lt": "<", "Le": "<="}[spec["cmp"]], spec["bound"], spec["init"], desc),
-                   fn=f, where=prim.site(f, b, s), how="dominating guard + oracle row")
+                   fn=f, where=prim.site(f, b, s), how="dominating guard (normal form) + oracle row")
         # try_next only on the accepting side of the same comparison
         if guard_bb is not None:
             gs = prim.dominating_guards(f, tb)
-            ok = any(gd["bb"] == guard_bb and gd["bool"] is True for gd in gs)
-            ctx.ob("R2", "accept-side:%s" % short, ok, "the remaining limiters are consulted only when this limiter has room (true edge of the same comparison)", fn=f, where=prim.site(f, tb), how="dominating guard")
+            here = [gd for gd in gs if gd["bb"] == guard_bb]
+            there = [gd for b, s in errs for gd in prim.dominating_guards(f, b) if gd["bb"] == guard_bb]
+            ok = bool(here) and bool(there) and here[0]["bool"] is not None and here[0]["bool"] is (not there[0]["bool"])
+            ctx.ob("R2", "accept-side:%s" % short, ok, "the remaining limiters are consulted only when this limiter has room (the other edge of the comparison that guards the refusal)", fn=f, where=prim.site(f, tb), how="dominating guard")
         # initial value
         nf = prog.fns.get(ty + "::new")
         if nf is None:
